@@ -404,6 +404,29 @@ func genC01(c *Ctx) {
 		})
 		n := func(x string) string { return logicalDoc(dNum(x)) }
 		st := func(x string) string { return logicalDoc(dStr(x)) }
+		// a private field whose name differs in case only from an exported one (before it, and after it), and an embedded pointer
+		dup := func(k string, id int, ID, name string) *TV {
+			return tvUnexp(k, tvInt("int", fmt.Sprint(id)), tvStr(ID), tvStr(name))
+		}
+		dup2 := func(ID string, id int, name string) *TV {
+			return tvUnexp("D2", tvStr(ID), tvInt("int", fmt.Sprint(id)), tvStr(name))
+		}
+		doc2 := tvMap("str", [][2]any{
+			{hx("d"), dup("D", 5, "acc-1", "n1")}, {hx("e"), dup2("acc-2", 6, "n2")},
+			{hx("ds"), tvSlice(1, dup("D", 1, "m-1", "x"), dup2("m-2", 2, "y"), dup("D", 3, "m-3", "z"))},
+			{hx("pd"), tvPtr(dup("D", 7, "acc-7", "n7"))},
+			{hx("emb"), tvUnexp("E", tvStr("ann"), tvInt("int", "4"), tvInt("int", "11"))}, {hx("emb0"), tvUnexp("E0", tvInt("int", "12"))},
+			{hx("embs"), tvSlice(1, tvUnexp("E0", tvInt("int", "1")), tvUnexp("E", tvStr("bob"), tvInt("int", "2"), tvInt("int", "3")))},
+		})
+		for _, qx := range [][2]string{
+			{"$.d.id", st("acc-1")}, {"$.d.ID", st("acc-1")}, {"$.d.Id", st("acc-1")}, {"$.d.name", st("n1")}, {"$.e.id", st("acc-2")}, {"$.e.ID", st("acc-2")}, {"$.e.name", st("n2")},
+			{"$.ds.id", logicalDoc(dArr(dStr("m-1"), dStr("m-2"), dStr("m-3")))}, {"$.ds.ID", logicalDoc(dArr(dStr("m-1"), dStr("m-2"), dStr("m-3")))},
+			{"$.ds.name", logicalDoc(dArr(dStr("x"), dStr("y"), dStr("z")))}, {"$.pd.id", st("acc-7")},
+			{"$.emb.id", n("11")}, {"$.emb0.id", n("12")}, {"$.emb.createdby", "KNF"}, {"$.emb0.createdby", "KNF"}, {"$.emb0.CreatedBy", "KNF"}, {"$.emb0.revision", "KNF"},
+			{"$.embs.id", logicalDoc(dArr(dNum("1"), dNum("3")))}, {"$.embs.createdby", "KNF"}, {"$.emb.embinner.createdby", st("ann")}, {"$.emb0.embinner.createdby", "KNF"},
+		} {
+			c.Do(Case{Q: qx[0], D: doc2, XK: "logical", X: qx[1], Cls: "named/struct-layouts", InDomain: true})
+		}
 		for round := 0; round < 2; round++ { // the second round meets whatever the first one left behind
 			for _, qx := range [][2]string{
 				{"$.f.a", n("3")}, {"$.f.A", n("3")}, {"$.f.k", st("kf")}, {"$.f.K", st("kf")}, {"$.f.hidden", "KNF"}, {"$.f.Hidden", "KNF"},
